@@ -36,7 +36,9 @@ def _mk_case(rng, nin):
         kind = rng.choice(KINDS)
         ht = rng.choice(TAPROOT_TYPES if kind == "tr" else LEGACY_TYPES)
         if (ht & 3) == 3 and i >= len(t["outs"]): ht = 1
-        ins.append({"kind": kind, "key": rng.randrange(nkeys), "ht": ht, "amt": rand_amount(rng),
+        ht2 = rng.choice(TAPROOT_TYPES if kind == "tr" else LEGACY_TYPES)
+        if (ht2 & 3) == 3 and i >= len(t["outs"]): ht2 = 1
+        ins.append({"kind": kind, "key": rng.randrange(nkeys), "ht": ht, "ht2": ht2, "amt": rand_amount(rng),
                     "tree": rng.choice([None, rand_tree(rng, depth=1), rand_tree(rng, depth=2)]) if kind == "tr" else None})
     spks = [[["op", "OP_1"], ["data", rand_hex(rng, 32)]] for _ in range(nin)]
     return {"tx": t, "keys": keys, "ins": ins, "spks": spks, "amts": [x["amt"] for x in ins]}
@@ -112,7 +114,17 @@ def _run_order(d, order):
                 tx.witnesses[i] = TxWitnessInput([sigs[i], pub])
             else:
                 tx.witnesses[i] = TxWitnessInput([sigs[i]])
-    return ",".join(digs[i] for i in sorted(digs)) + ";" + tx.to_hex() + ";" + ",".join(sigs[i] for i in sorted(sigs))
+    # after everything is signed and attached: each input's digest once more, under a second hash type
+    late = []
+    for i, inp in enumerate(d["ins"]):
+        pub = keys[inp["key"]].get_public_key().to_hex(); ht2 = inp.get("ht2", inp["ht"])
+        if inp["kind"] == "legacy":
+            late.append(tx.get_transaction_digest(i, Script(_p2pkh(pub)), ht2).hex())
+        elif inp["kind"] in ("v0", "nested"):
+            late.append(tx.get_transaction_segwit_digest(i, Script(_p2pkh(pub)), inp["amt"], ht2).hex())
+        else:
+            late.append(tx.get_transaction_taproot_digest(i, spks, d["amts"], 0, sighash=ht2).hex())
+    return ",".join([digs[i] for i in sorted(digs)] + late) + ";" + tx.to_hex() + ";" + ",".join(sigs[i] for i in sorted(sigs))
 
 
 def _verify_sigs(d, final):
@@ -236,6 +248,18 @@ def model(d):
             else:
                 qs.append(sx("taproot_digest", tx_sx(d["tx"]), i, Raw("(" + " ".join(toks_sx(s).s for s in d["spks"]) + ")"),
                              Raw("(" + " ".join(str(a) for a in d["amts"]) + ")"), 0, toks_sx([]), inp["ht"]))
+        for i, inp in enumerate(d["ins"]):
+            import coincurve
+            pub = coincurve.PrivateKey(d["keys"][inp["key"]].to_bytes(32, "big")).public_key.format(True).hex()
+            code = [["op", "OP_DUP"], ["op", "OP_HASH160"], ["data", _p2pkh(pub)[2]], ["op", "OP_EQUALVERIFY"], ["op", "OP_CHECKSIG"]]
+            ht2 = inp.get("ht2", inp["ht"])
+            if inp["kind"] == "legacy":
+                qs.append(sx("legacy_pre", tx_sx(d["tx"]), i, toks_sx(code), ht2))
+            elif inp["kind"] in ("v0", "nested"):
+                qs.append(sx("segwit_pre", tx_sx(d["tx"]), i, toks_sx(code), inp["amt"], ht2))
+            else:
+                qs.append(sx("taproot_digest", tx_sx(d["tx"]), i, Raw("(" + " ".join(toks_sx(s).s for s in d["spks"]) + ")"),
+                             Raw("(" + " ".join(str(a) for a in d["amts"]) + ")"), 0, toks_sx([]), ht2))
         return qs
     return sx("heap_copy", len(d["tx"]["ins"]), len(d["tx"]["outs"]), len(d["tx"]["wits"]))
 
